@@ -16,6 +16,11 @@ relative to the base (quick: the two values swapped, on the activated base; thor
 inverted with ratio 2, on both bases; pairs equal by default get both orders), and every dimensionless ratio
 inverted (v -> 1/v): visits every branch that depends on which of two sizes is larger (prolate/oblate ellipsoids,
 length < radius, side orderings).
+Extreme ratio: for every pair of same-unit shape parameters one is pushed to 1e-2 and 1e-3 of the other, in both
+directions (thin walls, flat discs, long needles, thin shells), and every dimensionless volume parameter (itself a
+ratio of sizes) to 1e-2, 1e-3 and the inverses; quick: both directions at one seed-rotated ratio per pair, on the
+activated base; thorough: everything on both bases.  These sets use q*size in {1, 5, 20} and q*L in {1, 3, 10} for
+BOTH lengths of the pair.
 q menu: q*size as above, plus q = {0.7, 1, 1.4, 2, 3} x 2 pi / L for every length L that is not a volume parameter
 (the lattice spacing dnn of the paracrystals sets its own q scale).
 One case = one (model, base, parameter set); the q values are looped inside.
@@ -159,6 +164,44 @@ def inversions(info, vals, quick):
     return out
 
 
+EXTREME = (1e-2, 1e-3)
+QPAIR = [1.0, 3.0, 10.0]          # q*L for BOTH lengths of an extreme pair
+QSIZE_EXTREME = [1.0, 5.0, 20.0]  # reduced q*size menu on the extreme sets
+
+
+def extremes(info, vals, ctx):
+    """
+    extreme ratio: for every pair of shape parameters with the same unit, one of the two pushed to 1e-2 and 1e-3 of the
+    other (which keeps its base value), in both directions - thin walls, flat discs, long needles, thin shells; and every
+    dimensionless volume parameter (itself a ratio of sizes: x_core, axis_ratio, b2a_ratio ...) set to 1e-2, 1e-3 and
+    their inverses.  Quick: both directions at ONE of the two ratios per pair (rotated by seed + pair index);
+    thorough: all.  Returns a list of ({name: value}, [names whose lengths tie the q menu]).
+    """
+    out = []
+    pars = [p for p in shape_pars(info) if not is_count(p) and vals[p.name] > 0]
+    inside = lambda p, v: p.limits[0] <= v <= p.limits[1]
+    k = 0
+    for p1, p2 in itertools.combinations(pars, 2):
+        if unit_of(p1) != unit_of(p2):
+            continue
+        ratios = [EXTREME[(ctx.seed + k) % len(EXTREME)]] if ctx.quick else EXTREME
+        k += 1
+        for r in ratios:
+            for small, large in ((p1, p2), (p2, p1)):
+                v = r * float(vals[large.name])
+                if inside(small, v):
+                    out.append(({small.name: v}, [small.name, large.name] if unit_of(p1) else []))
+    for p in pars:
+        if unit_of(p) == "" and p.type == "volume":
+            ratios = [EXTREME[(ctx.seed + k) % len(EXTREME)]] if ctx.quick else EXTREME
+            k += 1
+            for r in ratios:
+                for v in (r, 1.0 / r):
+                    if inside(p, v):
+                        out.append(({p.name: v}, []))
+    return out
+
+
 def setup(ctx):
     om = oriented_models()
     if len(om) < 21:
@@ -242,6 +285,8 @@ def cases(ctx):
             if base == "activated" or not ctx.quick:
                 for sets in inversions(info, vals, ctx.quick):
                     out.append(dict({"model": m, "scaled": {}, "set": sets}, **tag))
+                for sets, tied in extremes(info, vals, ctx):
+                    out.append(dict({"model": m, "scaled": {}, "set": sets, "extreme": tied}, **tag))
             singles = (lo, hi) if ctx.quick else (lo, hi, lo * lo, hi * hi)
             for p in vol:
                 for f in singles:
@@ -346,8 +391,15 @@ def run_case(case, ctx):
         return r.inconc("volume-not-positive")
     size = form ** (1.0 / 3.0)
     tweak = ctx.rot(QTWEAK)
-    qlist = [1e-3 / size] + [x * tweak / size for x in QSIZE]
-    qlabel = [None] + [{"q*size": x * tweak} for x in QSIZE]
+    extreme = case.get("extreme")
+    qsize = QSIZE if extreme is None else QSIZE_EXTREME
+    qlist = [1e-3 / size] + [x * tweak / size for x in qsize]
+    qlabel = [None] + [{"q*size": x * tweak} for x in qsize]
+    for nm in (extreme or []):
+        # extreme pair of lengths: q tied to BOTH of them, q*L_small and q*L_large of order 1..10
+        for x in QPAIR:
+            qlist.append(x * tweak / pars[nm])
+            qlabel.append({"q*%s" % nm: x * tweak})
     for pp in shape_pars(info):
         # a length that does not enter the volume (dnn) sets its own q scale: q in units of 2 pi / L
         if pp.type != "volume" and "Ang" in unit_of(pp) and pars[pp.name] > 0:
@@ -407,9 +459,11 @@ def run_case(case, ctx):
         br.append("decidable" if strict[k] else "decidable-coarse")
         if nt:
             br.append("nt:" + name)
-        if len(qlabel[k]) and "q*size" not in qlabel[k]:
+        if any(key.endswith("/2pi") for key in qlabel[k]):
             br.append("lattice-q")
-        if case.get("set"):
+        if extreme is not None:
+            br.append("extreme-ratio")
+        elif case.get("set"):
             br.append("inverted")
         if any(pp.type != "volume" and pp.name in moved for pp in shape_pars(info)):
             br.append("non-volume-moved")
@@ -456,6 +510,7 @@ def finish(ctx, report):
     report.require("all-SLDs-distinct", 300, "decidable points with every SLD (solvent included) different from every other")
     report.require("gauss-switch:150", 100, "model re-integrated with the 150-point table")
     report.require("gauss-switch:76", 1, "model with a native 150-point table re-integrated with 76 points")
+    report.require("extreme-ratio", 150, "decidable points on parameter sets with a size ratio pushed to 1e-2 / 1e-3")
     report.require("inverted", 200, "decidable points on parameter sets with the order of two sizes inverted")
     report.require("non-volume-moved", 30, "decidable points with a non-volume shape parameter (dnn, d_factor, sigma...) moved")
     report.require("lattice-q", 10, "decidable points on the q menu in units of 2 pi / (non-volume length)")
